@@ -608,7 +608,7 @@ Proof.
   destruct (resolve s doc from) as [rf|] eqn:Ef; [|discriminate]. cbn [bind] in H.
   destruct (resolve s doc to) as [rt|] eqn:Et; [|discriminate]. cbn [bind] in H.
   unfold replace_rp in H. destruct (rp_depth rf <? sl_open_start sl); [discriminate|].
-  destruct (negb _); [discriminate|].
+  destruct (negb _); [discriminate|]. destruct (rp_pos rt <? rp_pos rf); [discriminate|]. destruct (_ && _); [discriminate|].
   eapply replace_outer_CN; [exact H|eapply resolve_Good; eauto|eapply resolve_Good; eauto|exact Hc].
 Qed.
 
